@@ -205,6 +205,15 @@ func c14Scenarios(tier string) []scenario {
 			}
 		}
 	}
+	// a streaming minifier that gives up at the first failed write while the producer still has chunks to write
+	for _, cs := range [][][]byte{{[]byte("abcdef")}, {[]byte("ab"), []byte("cdef")}, {[]byte("ab"), []byte("cd"), []byte("ef")}, {[]byte("a"), []byte("bcd"), []byte("e"), []byte("f")}} {
+		for k := 1; k <= 3; k++ {
+			scs = append(scs, writerFaultScenario(input{"x/copy", string(join(cs))}, cs, k, false))
+			for _, kind := range []string{"ResponseWriter", "MiddlewareWithError"} {
+				scs = append(scs, respFaultScenario(kind, input{"x/copy", string(join(cs))}, cs, k))
+			}
+		}
+	}
 	// failing documents: the minifier's own error must still not hang the wrappers when the sink fails too
 	for _, in := range c12inputs[6:8] {
 		scs = append(scs, writerFaultScenario(in, [][]byte{[]byte(in.in)}, 1, false))
